@@ -487,6 +487,8 @@ def _admt(run, prog, mi):
         raise AnalysisError('anchored function vanished: calculate_admt')
     K = 'cherab.tools.inversions.admt_utils|calculate_admt|'
     COEF = ('cx', 'cy', 'cxx', 'cxy', 'cyy')
+    from ..inline import flatten, module_lookup
+    fn = flatten(fn, module_lookup(mi))        # private helpers (assembly, shared sub-expressions) are read where they are called
     try:
         plain = _admt_paths(fn)
         pinned = _admt_paths(fn, ('Dpar', 'Dperp'))
